@@ -2,6 +2,8 @@
 C02 — numerical fluxes are consistent, mirror-symmetric and upwind.
 Part A: convection, Burgers, shallow water, Euler centered / centered-massflow / HLLE.
 Part B: HLLC and the 2D Euler fluxes (both face directions, transposition, reduction to 1D).
+Part C: upwind clause of the 2D HLLE flux for any normal; orientation (flip) and rotation laws.
 -/
 import Flowdyn.Props.C02a
 import Flowdyn.Props.C02b
+import Flowdyn.Props.C02c
